@@ -166,6 +166,16 @@ static void check_routes(impl::Lexicon& lex, Rng& rng, std::uint64_t inst)
       if (&lex.get_linkage(free_cxx) != &L.cxx_linkage() || &lex.get_linkage(other.get_string(u8"C++")) != &L.cxx_linkage()) tviol("route:foreign-word->linkage:C++", "get_linkage(a String spelled \"C++\" that this Lexicon did not intern) is not cxx_linkage()");
       tcount("foreign_string_routes", 4);
    }
+   // a non-standard linkage whose spelling begins like a standard one (or is a prefix of one), asked right before the standard one
+   for (auto w : { u8"C++/CLI", u8"CUDA", u8"Cobol", u8"C+", u8"C++11", u8"C-like", u8"C " }) {
+      auto& v = lex.get_linkage(w);
+      tcount("near_miss_routes_checked");
+      if (&v == &L.c_linkage() || &v == &L.cxx_linkage()) tviol("route:near-miss-yields-constant", "a vendor linkage spelling yields a standard linkage");
+      if (&lex.get_linkage(u8"C") != &L.c_linkage() || &lex.get_linkage(lex.get_string(u8"C")) != &L.c_linkage()) tviol("route:word->linkage:C:after-a-vendor-linkage", "get_linkage(\"C\") is not c_linkage() right after a vendor linkage was asked for");
+      (void)lex.get_linkage(w);
+      if (&lex.get_linkage(u8"C++") != &L.cxx_linkage() || &lex.get_linkage(lex.get_string(u8"C++")) != &L.cxx_linkage()) tviol("route:word->linkage:C++:after-a-vendor-linkage", "get_linkage(\"C++\") is not cxx_linkage() right after a vendor linkage was asked for");
+      if (&lex.get_linkage(w) != &v) tviol("route:vendor-linkage-not-unified", "a vendor linkage is not unified");
+   }
    for (auto w : { u8"c", u8"C+", u8"C++ ", u8" C", u8"c++", u8"Java" }) {
       auto& l = lex.get_linkage(w);
       tcount("near_miss_routes_checked");
